@@ -241,27 +241,38 @@ pub fn run(run: Run) -> ! {
             objects.push(vec![TlSpec { kfs: a.clone(), default_easing: 0, timing: thetas[t1] }, TlSpec { kfs: b.clone(), default_easing: 3, timing: thetas[t2] }]);
         }
     }
-    let ops = alphabet(6);
+    // passes: (depth, full 7-time grid?). The deepest pass of the thorough tier keeps the six-time grid it was
+    // sized for (without the end-of-first-cycle instant); the seven-time grid is explored to depth 4 in both tiers.
+    let passes: Vec<(usize, bool)> = if run.is_thorough() { vec![(5, false), (4, true)] } else { vec![(4, true)] };
+    let (ops7, ops6) = (alphabet(7), alphabet(6));
+    let ops = ops7.clone();
     let mut items = vec![];
-    for oi in 0..objects.len() {
-        for fo in 0..ops.len() {
-            items.push((oi, fo));
+    for (pi, &(_, full)) in passes.iter().enumerate() {
+        for oi in 0..objects.len() {
+            for fo in 0..(if full { ops7.len() } else { ops6.len() }) {
+                items.push((pi, oi, fo));
+            }
         }
     }
     let acc = par_fold(
         items.len(),
         Acc::default,
         |ii, acc| {
-            let (oi, fo) = items[ii];
+            let (pi, oi, fo) = items[ii];
+            let (depth, full) = passes[pi];
+            let ops = if full { &ops7 } else { &ops6 };
             let specs = &objects[oi];
             let desc = json!({"components": specs.iter().map(|s| s.to_json()).collect::<Vec<_>>(), "merged": oi >= n_single});
             let def = (specs.iter().any(|s| s.kfs.iter().any(|k| k.a.is_some())), specs.iter().any(|s| s.kfs.iter().any(|k| k.k.is_some())));
-            let tms = times_for(&specs.iter().map(|s| s.timing).collect::<Vec<_>>());
-            let rank0 = (oi as u64) << 32 | (fo as u64) << 8;
+            let mut tms = times_for(&specs.iter().map(|s| s.timing).collect::<Vec<_>>());
+            if !full {
+                tms.remove(1);
+            }
+            let rank0 = (pi as u64) << 60 | (oi as u64) << 32 | (fo as u64) << 8;
             if oi < n_single {
-                explore::<PTimeline>(&|| specs[0].build(), &desc, def, &tms, &ops, fo, depth, rank0, acc);
+                explore::<PTimeline>(&|| specs[0].build(), &desc, def, &tms, ops, fo, depth, rank0, acc);
             } else {
-                explore::<MergedTimeline<PTimeline>>(&|| MergedTimeline::of(specs.iter().map(|s| s.build()).collect::<Vec<_>>()), &desc, def, &tms, &ops, fo, depth, rank0, acc);
+                explore::<MergedTimeline<PTimeline>>(&|| MergedTimeline::of(specs.iter().map(|s| s.build()).collect::<Vec<_>>()), &desc, def, &tms, ops, fo, depth, rank0, acc);
             }
             if acc.samples.len() < 2 && (oi == 9 || oi == n_single + 1) && fo == 7 {
                 acc.samples.push(json!({"object": desc, "first_op": opname(&ops[fo], &tms), "alphabet": ops.iter().map(|o| opname(o, &tms)).collect::<Vec<_>>(), "depth": depth}));
@@ -284,7 +295,7 @@ pub fn run(run: Run) -> ! {
     cov.insert("traces_validated_against_impl".into(), json!(acc.sequences));
     cov.insert("evaluations".into(), json!(acc.updates));
     cov.insert("distinct_nontrivial".into(), json!(acc.sequences));
-    cov.insert("rule".into(), json!(format!("{} plain timelines ({} keyframe lists from T(2),T(3) x 6 timings) 2 timelines with 17 / 33 keyframes, and {} merged timelines (two components with different delays/timings); objects X and Y (clone slot); alphabet of {} operations: update(obj, target in {{fresh sentinel, dirty, previous result}}, 7 times spanning before-start (negative zero when there is no delay) / exactly the end of the first cycle (hold instant) / between the component delays / first pass / second pass-or-after-end / exactly on the 50% keyframe position / far), start_with(obj, 3 values), Y=X.clone(), X=Y.clone(), Y.clone_from(&X), X.clone_from(&Y); ALL sequences of length {} (stateless DFS, state = history); oracle: every update equals the memo entry (latest start value of that object, time) computed on a pristine twin into a fresh target, untouched fields keep the input's bits; delay/cycle/duration/repeat never change; non-trivial = complete sequences", n_single, kfss.len(), objects.len() - n_single, ops.len(), depth)));
+    cov.insert("rule".into(), json!(format!("{} plain timelines ({} keyframe lists from T(2),T(3) x 6 timings) 2 timelines with 17 / 33 keyframes, and {} merged timelines (two components with different delays/timings); objects X and Y (clone slot); alphabet of {} operations: update(obj, target in {{fresh sentinel, dirty, previous result}}, 7 times spanning before-start (negative zero when there is no delay) / exactly the end of the first cycle (hold instant) / between the component delays / first pass / second pass-or-after-end / exactly on the 50% keyframe position / far), start_with(obj, 3 values), Y=X.clone(), X=Y.clone(), Y.clone_from(&X), X.clone_from(&Y); ALL sequences of length {} (stateless DFS, state = history; the thorough tier explores length 5 over the grid without the end-of-first-cycle instant and length 4 over the full grid); oracle: every update equals the memo entry (latest start value of that object, time) computed on a pristine twin into a fresh target, untouched fields keep the input's bits; delay/cycle/duration/repeat never change; non-trivial = complete sequences", n_single, kfss.len(), objects.len() - n_single, ops.len(), depth)));
     cov.insert("exhaustive".into(), json!(true));
     cov.insert("depth".into(), json!(depth));
     cov.insert("distinct_update_results_capped".into(), json!(acc.distinct_results.len()));
@@ -298,7 +309,7 @@ pub fn replay(case: &Value) -> bool {
     let merged = case["object"]["merged"].as_bool().unwrap_or(false);
     let hist_names: Vec<String> = case["history"].as_array().map(|a| a.iter().map(|x| x.as_str().unwrap_or("").to_string()).collect()).unwrap_or_default();
     let tms = times_for(&specs.iter().map(|s| s.timing).collect::<Vec<_>>());
-    let ops = alphabet(6);
+    let ops = alphabet(7);
     let mut hist: Vec<Op> = vec![];
     for n in &hist_names {
         match ops.iter().find(|o| &opname(o, &tms) == n) {
